@@ -7,6 +7,7 @@ import (
 	"io"
 	"math/rand"
 	"sort"
+	"strconv"
 	"strings"
 
 	"github.com/golang/protobuf/proto"
@@ -27,8 +28,48 @@ import (
 // script so that known findings can be keyed by class.
 var msgClasses = []string{"empty", "zero-payload", "small", "fields", "maps", "any", "medium", "large"}
 
+// boundarySizes: encoded message sizes around every power of two from 8 bytes
+// to 128 KiB (buffer and chunk boundaries of the transports live there)
+var boundarySizes = func() []int {
+	var out []int
+	for k := 3; k <= 17; k++ {
+		for d := -8; d <= 8; d++ {
+			if n := (1 << uint(k)) + d; n >= 4 {
+				out = append(out, n)
+			}
+		}
+	}
+	return out
+}()
+
+// sizedMessage returns a message whose encoding has exactly n bytes (n >= 4):
+// one bytes field, tag + length varint + random payload.
+func sizedMessage(r *rand.Rand, n int) *gt.Message {
+	l := n - 2
+	for ; l > 0; l-- {
+		v := 1
+		for x := l; x >= 128; x >>= 7 {
+			v++
+		}
+		if 1+v+l == n {
+			break
+		}
+	}
+	m := &gt.Message{Payload: randBytes(r, l)}
+	if proto.Size(m) != n {
+		// no payload length gives exactly n (cannot happen for n >= 4): nearest
+		m = &gt.Message{Payload: randBytes(r, n-3)}
+	}
+	return m
+}
+
 func genMessage(r *rand.Rand, class string, tag int) *gt.Message {
 	m := &gt.Message{}
+	if strings.HasPrefix(class, "sized:") {
+		// message number tag of the script takes the (base+tag)-th boundary size
+		base, _ := strconv.Atoi(class[len("sized:"):])
+		return sizedMessage(r, boundarySizes[(base+tag)%len(boundarySizes)])
+	}
 	switch class {
 	case "empty":
 		// all fields at their zero value: encodes to zero bytes
